@@ -31,7 +31,7 @@ from .. import build, pcall
 from ..ctx import Ctx
 from ..terms import Term, from_json, to_json
 from ..tlc import MachineryError, run_tlc
-from ..tracekit import parse_prints, validate_traces
+from ..tracekit import TRACE_CFG, parse_prints
 from . import c02
 
 PROPERTY = "C18"
@@ -408,6 +408,41 @@ def tlc_job(module: str, cfg: str, workdir, **kw):
         if "TLC exit -9" not in str(ex):
             raise
         return run_tlc(module, cfg, workdir, **kw)
+
+
+def validate_traces(ctx, module: str, traces: list[dict], name: str, *, invariants: list[str], strip: tuple = (),
+                    chunk: int = 4000, count: bool = True) -> dict[int, int]:
+    """tracekit.validate_traces (same convention, same cfg) with a 1 GB heap per single-worker TLC process - up to 16 run side
+    by side - and one retry for a process killed from outside.  Returns {trace index: event index reached} for rejected traces."""
+    if not traces:
+        return {}
+    chunks = [list(range(i, min(i + chunk, len(traces)))) for i in range(0, len(traces), chunk)]
+    cfg = TRACE_CFG.format(invs="\n".join(f"INVARIANT {i}" for i in invariants))
+
+    def one(ci: int):
+        wd = ctx.workdir(f"tv_{module}_{name}_{ci}")
+        f = wd / "traces.ndjson"
+        with f.open("w") as fh:
+            for i in chunks[ci]:
+                fh.write(json.dumps({k: v for k, v in traces[i].items() if k not in strip}, separators=(",", ":")) + "\n")
+        return ci, tlc_job(module, cfg, wd, workers=1, env={"TRACE_FILE": str(f)}, timeout=1800, heap="1g")
+
+    rejected: dict[int, int] = {}
+    with ThreadPoolExecutor(max_workers=8) as ex:
+        for ci, r in ex.map(one, range(len(chunks))):
+            if r.violated:
+                raise MachineryError(f"{module}: invariant {r.violated} violated during trace validation (the spec itself is "
+                                     f"inconsistent):\n{r.stdout[-3000:]}")
+            if count:
+                ctx.add_tlc(r, f"{module} {name} chunk {ci} ({len(chunks[ci])} traces)")
+            for tag, payload in parse_prints(r.prints):
+                if tag == "REJECT":
+                    rejected[chunks[ci][payload[0] - 1]] = max(payload[1], 1)
+            if "Evaluating postcondition" not in r.stdout and "Accepted" not in r.stdout and r.distinct == 0:
+                raise MachineryError(f"{module}: no states explored:\n{r.stdout[-2000:]}")
+    if count:
+        ctx.traces_validated += len(traces) - len(rejected)
+    return rejected
 
 
 def windowed(procs, fn, args: list, window: int) -> Iterator[list[dict]]:
